@@ -549,7 +549,11 @@ func c08ContentLengthStrict(c *Ctx) {
 				continue
 			}
 			n++
-			absent := fi.HasFact(st, func(ft ir.Fact) bool {
+			isAbsent := func(ft ir.Fact) bool {
+				if x, isNil, ok := ir.NilTest(ft.Cond, ft.Truth); ok && isNil {
+					_, isLookup := ir.Resolve(x).(*ssa.Lookup)
+					return isLookup
+				}
 				e, zero, ok := ir.ZeroTest(ft.Cond, ft.Truth)
 				if !ok || !zero {
 					return false
@@ -560,7 +564,23 @@ func c08ContentLengthStrict(c *Ctx) {
 				}
 				_, isLookup := ir.Resolve(x).(*ssa.Lookup)
 				return isLookup
-			})
+			}
+			absent := fi.HasFact(st, isAbsent)
+			if !absent && len(st.Block().Preds) > 1 {
+				// a join (vals == nil || len(vals) == 0): every way in says 'absent'
+				absent = true
+				for _, pr := range st.Block().Preds {
+					onEdge := false
+					for _, ft := range fi.FactsOnEdge(pr, st.Block()) {
+						if isAbsent(ft) {
+							onEdge = true
+						}
+					}
+					if !onEdge {
+						absent = false
+					}
+				}
+			}
 			if !absent {
 				bad = "the message is given no length (contentLength = -1) at " + c.Pos(st) + " on a path on which the field may be present with an empty value: \"Content-Length:\" followed by blanks only is not a number, yet the message is framed as if it had no body and what follows is parsed as the next message (net/http: invalid empty Content-Length)"
 			}
